@@ -50,6 +50,7 @@ Sweep: C15.2 a value the base-n encoder special-cases is written as its own digi
 Fifth round: C15.4 the zkutils writers decide that no payload was given by identity with None, never by truthiness; C15.5 LdapObject.update sends the entry exactly as to_entry built it (empty values are the deletion markers).
 Sixth round: C15.2 the base-n routines work in integers only (no true division, no float); C15.4 the decoder order is judged in the helper that holds json.loads.
 Seventh round: C15.1 every port group of the rule-file regexes accepts all of 1..65535 (decided by matching the folded sub-expression against every value); C15.5 a list-typed admin field is written with one value per element, none dropped or merged.
+Eighth round: C15.5 the reader selects option groups by their prefix alone (the writer numbers them in hexadecimal); C15.1 a template chosen by a conditional expression and wildcard values prepared in locals are read through.
 Does NOT decide round-trip equality and injectivity over the value domains
 (type coercions, port 0 vs wildcard, None vs empty list).
 """
